@@ -5,15 +5,13 @@
 EXTENDS ResAccess, Json, TLC, Sequences, FiniteSets
 T == ndJsonDeserialize("table.ndjson")
 Range(s) == {s[i] : i \in DOMAIN s}
-Exp(v) == CASE v = "system.accessDenied" -> 401 [] v = "system.notFound" -> 404 [] OTHER -> 500
 RowOK(r) ==
     LET v == Verdict(r, r.want) IN
     IF v = "ok"
     THEN r.status = 200 /\ r.reqs = (IF r.want = "get" THEN r.reqs ELSE <<"access", "call">>) /\ (r.want = "get" => Range(r.reqs) = {"access", "get"})
-    ELSE /\ r.status = Exp(v)
-         /\ ~r.leak
+    ELSE /\ r.status >= 400          \* refused with an error status (which one is C17's business: table httpstatus)
+         /\ ~r.leak                  \* neither the resource's data nor the call's result in the body
          /\ "call" \notin Range(r.reqs)
-         /\ (r.meta = "hdr" => "X-Test" \in DOMAIN r.hdr)
 Bad == {i \in 1..Len(T) : ~RowOK(T[i])}
 Combos == {<<T[i].res, T[i].get, T[i].call, T[i].err, T[i].meta, T[i].want>> : i \in 1..Len(T)}
 Complete == Cardinality(Combos) = (3 * 3 * 3 + 3) * 4 * 3
